@@ -131,7 +131,17 @@ pub const NOTE_THREAD_ID: u8 = 6; // (dsl thread, loom thread id)
 pub struct TlsVal {
     key: usize,
     owner: usize,
+    /// loom thread id of the initialising thread
+    owner_id: i64,
     counter: std::cell::Cell<i64>,
+}
+
+/// loom id of the running loom thread, or -1 when no execution is accessible (cleanup after a failure)
+fn cur_loom_id() -> i64 {
+    if std::thread::panicking() {
+        return -1;
+    }
+    std::panic::catch_unwind(|| thread_id_num(&loom::thread::current())).unwrap_or(-1)
 }
 
 impl TlsVal {
@@ -140,7 +150,7 @@ impl TlsVal {
         if let Some(s) = current() {
             s.note(NOTE_TLS_INIT, key as i64, owner as i64);
         }
-        TlsVal { key, owner, counter: std::cell::Cell::new(0) }
+        TlsVal { key, owner, owner_id: cur_loom_id(), counter: std::cell::Cell::new(0) }
     }
 }
 
@@ -149,10 +159,13 @@ impl Drop for TlsVal {
         // `try_with` from a destructor at thread exit must report AccessError for a key whose
         // value is destroyed or being destroyed. Only keys this thread initialised are probed: probing
         // a key that was never initialised would create it during destruction (std does the same).
-        let t = CUR_THREAD.with(|t| *t.borrow());
+        // the thread running the destructor: CUR_THREAD may be stale here (loom can switch threads
+        // between the end of the thread's closure and the destruction of its locals), so compare loom ids
+        let id = cur_loom_id();
+        let t = if id < 0 || id == self.owner_id { self.owner } else { 15 };
         let sh = current();
         let initialised = |key: usize| -> bool {
-            sh.as_ref().map(|s| lock(&s.cur).notes.iter().any(|n| n.0 == NOTE_TLS_INIT && n.1 == key as i64 && n.2 == t as i64)).unwrap_or(false)
+            sh.as_ref().map(|s| lock(&s.cur).notes.iter().any(|n| n.0 == NOTE_TLS_INIT && n.1 == key as i64 && n.2 == self.owner as i64)).unwrap_or(false)
         };
         let other = 1 - self.key;
         let probe = |key: usize| -> bool {
